@@ -811,3 +811,153 @@ func runForbiddenFieldStore(p *Program, c *Collector, fs FieldStoreSpec) {
 		c.Ob(fs.Props, "E7.library-configuration", "fieldstore:"+strings.Join(fs.Funcs, ",")+" "+fs.Type+" default", Discharged, "the "+fs.Type+" is used as the library configures it", "", true)
 	}
 }
+
+// ---------------------------------------------------------------------------------------------
+// render once: a tablewriter.Table keeps the rows appended to it; Render() prints all of them and clears nothing. One table
+// value that is rendered at two places prints the rows of the first section again in the second (the team table of `coca
+// git` began with the four rows of the basic summary). ClearRows() between the two is the library's way out.
+type RenderOnceSpec struct {
+	Props  []string `json:"props"`
+	Funcs  []string `json:"funcs"`
+	Render []string `json:"render"` // full names of the printing method (default: tablewriter's Render)
+	Clear  []string `json:"clear"`  // full names of the method that empties the table (default: tablewriter's ClearRows)
+	What   string   `json:"what"`
+}
+
+func runRenderOnce(p *Program, c *Collector, a RenderOnceSpec) {
+	if len(a.Render) == 0 {
+		a.Render = []string{"github.com/olekukonko/tablewriter.(Table).Render"}
+	}
+	if len(a.Clear) == 0 {
+		a.Clear = []string{"github.com/olekukonko/tablewriter.(Table).ClearRows"}
+	}
+	isOneOf := func(name string, list []string) bool {
+		for _, x := range list {
+			if x == name {
+				return true
+			}
+		}
+		return false
+	}
+	n := 0
+	for _, fn := range expandFuncs(p, c, a.Funcs, a.Props...) {
+		renders := map[ssa.Value][]ssa.Instruction{}
+		clears := map[ssa.Value]bool{}
+		for _, f := range append([]*ssa.Function{fn}, allAnon(fn)...) {
+			for _, b := range f.Blocks {
+				for _, in := range b.Instrs {
+					call, ok := in.(ssa.CallInstruction)
+					if !ok || call.Common().StaticCallee() == nil || len(call.Common().Args) == 0 {
+						continue
+					}
+					name := fullFuncName(call.Common().StaticCallee())
+					if !isOneOf(name, a.Render) && !isOneOf(name, a.Clear) {
+						continue
+					}
+					recv := call.Common().Args[0]
+					// a table held in a captured variable: all loads of the cell are the same table
+					if u, ok := recv.(*ssa.UnOp); ok && u.Op == token.MUL {
+						recv = u.X
+					}
+					if isOneOf(name, a.Clear) {
+						clears[recv] = true
+					} else {
+						renders[recv] = append(renders[recv], in)
+					}
+				}
+			}
+		}
+		var vs []ssa.Value
+		for v := range renders {
+			vs = append(vs, v)
+		}
+		sort.Slice(vs, func(i, j int) bool { return renders[vs[i]][0].Pos() < renders[vs[j]][0].Pos() })
+		for i, v := range vs {
+			n++
+			key := "renderonce:" + p.FuncKey(fn) + " table#" + strconv.Itoa(i+1)
+			if len(renders[v]) > 1 && !clears[v] {
+				c.Ob(a.Props, "E7.render-once", key, Violated, a.What+": one table is rendered at "+strconv.Itoa(len(renders[v]))+" places in "+shortFn(p.FuncKey(fn))+" ("+p.InstrPos(renders[v][0])+", "+p.InstrPos(renders[v][1])+", …) and never cleared: every section after the first prints the rows of the sections before it again", p.InstrPos(renders[v][1]), false)
+			} else {
+				c.Ob(a.Props, "E7.render-once", key, Discharged, "the table is rendered once (or cleared between renderings)", p.InstrPos(renders[v][0]), true)
+			}
+		}
+	}
+	if n == 0 {
+		c.Ob(a.Props, "E7.render-once", "renderonce:"+strings.Join(a.Funcs, ","), Undecided, a.What+": no table is rendered in the named functions (anchor lost)", "", false)
+	}
+}
+
+// ---------------------------------------------------------------------------------------------
+// cross product: a record is filed inside two nested loops, and neither the record nor the condition under which it is filed
+// depends on the element of the outer loop: it is filed once for every outer element (`f, err := os.Open(n)` listed the call
+// twice, once per left-hand name).
+func runCrossProduct(p *Program, c *Collector, a FuncRuleSpec) {
+	n := 0
+	for _, fn := range expandFuncs(p, c, a.Funcs, a.Props...) {
+		if len(fn.Blocks) == 0 {
+			continue
+		}
+		sf := newSymFn(p, fn, 0)
+		sf.inlineOK = func(*ssa.Function) bool { return false }
+		if len(sf.headers) < 2 {
+			continue
+		}
+		k := 0
+		for _, e := range sf.emissions() {
+			if strings.HasPrefix(e.target, "mapstore:") || strings.HasPrefix(e.target, "globalstore:") || strings.HasPrefix(e.target, "freestore:") || strings.HasPrefix(e.target, "paramfield:") || strings.HasPrefix(e.target, "local:") {
+				continue // only appends to lists: a store is idempotent
+			}
+			var hs []*ssa.BasicBlock
+			for h, l := range sf.headers {
+				if l[e.block] {
+					hs = append(hs, h)
+				}
+			}
+			if len(hs) < 2 {
+				continue
+			}
+			sort.Slice(hs, func(i, j int) bool { return len(sf.headers[hs[i]]) > len(sf.headers[hs[j]]) })
+			if has, _ := e.elem.hasUnknown(); has {
+				continue
+			}
+			if has, _ := e.cond.hasUnknown(); has {
+				continue
+			}
+			k++
+			n++
+			key := "crossproduct:" + p.FuncKey(fn) + " #" + strconv.Itoa(k) + " into " + clip(e.target, 60)
+			bad := ""
+			inner := sf.binderName(hs[len(hs)-1])
+			for _, h := range hs[:len(hs)-1] {
+				name := sf.binderName(h)
+				coll := sf.loopCollection(h)
+				if coll == nil || e.elem.mentions(name) || e.cond.mentions(name) || e.elem.mentions(name+"_k") || e.cond.mentions(name+"_k") {
+					continue
+				}
+				// the inner collection itself may depend on the outer element (for c in classes: for m in c.methods): then the
+				// inner element does
+				dep := false
+				for _, h2 := range hs {
+					if h2 == h {
+						continue
+					}
+					if c2 := sf.loopCollection(h2); c2 != nil && (c2.mentions(name) || c2.mentions(name+"_k")) {
+						dep = true
+					}
+				}
+				if dep || !(e.elem.mentions(inner) || e.cond.mentions(inner)) {
+					continue
+				}
+				bad = clip(coll.String(), 80)
+			}
+			if bad != "" {
+				c.Ob(a.Props, "E7.cross-product", key, Violated, a.What+": "+shortFn(p.FuncKey(fn))+" files a record inside nested loops, and neither the record nor its condition depends on the element of the loop over "+bad+": the record is filed once per element of that list", e.pos, false)
+			} else {
+				c.Ob(a.Props, "E7.cross-product", key, Discharged, "the record depends on the element of every loop around it", e.pos, true)
+			}
+		}
+	}
+	if n == 0 {
+		c.Ob(a.Props, "E7.cross-product", "crossproduct:"+strings.Join(a.Funcs, ","), Discharged, a.What+": no record is filed inside nested loops", "", true)
+	}
+}
